@@ -253,6 +253,9 @@ def run(tier, seed):
             ("end_of_top_dir", "path"): "dir_stack holds directory entries only (C12.R5: they have a path)",
             ("print_symlink_line", "symlink_target"): "called under is_symlink (symlink_target != NULL tested in the caller)",
         }
+        # the listed exceptions rest on the presence rule of lha_file_header_read: decide it here too (same rule as C12.R5)
+        from .c12 import presence_rules
+        presence_rules(rep, ctx, mod, cg, prefix="R5p:")
         nuse = 0
         for fn in mod.defined():
             if fn.file.endswith("lha_file_header.c") or fn.file.endswith("ext_header.c"):
